@@ -122,6 +122,11 @@ def better_repr(v) -> str:
         if len(v) == 1:
             return "[%s,]" % better_repr(v[0])
         return "[%s]" % ", ".join(better_repr(i) for i in v)
-    # TODO: elif deal with sets and dicts
+    elif isinstance(v, (set, frozenset)) and v:
+        # The iteration order of a set depends on the running interpreter's
+        # string hashing; sort so that the same constant always looks the same.
+        inner = "{%s}" % ", ".join(sorted(better_repr(i) for i in v))
+        return inner if isinstance(v, set) else "frozenset(%s)" % inner
+    # TODO: elif deal with dicts
     else:
         return repr(v)
